@@ -186,7 +186,7 @@ func e19OnlyCalledFrom(c *Ctx, fn *ssa.Function, names ...string) bool {
 		}
 		memo[f] = 2
 		n := 0
-		for _, ed := range c.P.Callers(f) {
+		for _, ed := range c.P.RealCallers(f) {
 			cf := ed.Caller.Func
 			if cf == nil || cf.Synthetic != "" {
 				continue
@@ -223,7 +223,7 @@ func e19KeyFn(c *Ctx, fn *ssa.Function) *ssa.Function {
 			return fn // only unexported helpers are folded into their caller
 		}
 		var caller *ssa.Function
-		for _, ed := range c.P.Callers(fn) {
+		for _, ed := range c.P.RealCallers(fn) {
 			cf := ed.Caller.Func
 			if cf == nil || cf.Synthetic != "" {
 				continue
@@ -304,6 +304,132 @@ var e19RandCallees = map[string]bool{
 	"(*math/rand.Rand).Int63n": true, "(*math/rand.Rand).Intn": true, "(*math/rand.Rand).Int31n": true,
 }
 
+// e19Diff is a subtraction inside a size expression and the point where its
+// operands are alive (the use, or the call site that passes it to a helper).
+type e19Diff struct {
+	op *ssa.BinOp
+	at ssa.Instruction
+}
+
+// e19Differences lists the subtractions inside an integer expression: through
+// conversions, Phi, arithmetic, math rounding, and — for a helper's parameter —
+// the arguments of its static callers (2 levels).
+func e19Differences(c *Ctx, v ssa.Value, at ssa.Instruction) []e19Diff {
+	var out []e19Diff
+	seen := map[ssa.Value]bool{}
+	var walk func(x ssa.Value, at ssa.Instruction, d, up int)
+	walk = func(x ssa.Value, at ssa.Instruction, d, up int) {
+		if x == nil || seen[x] || d > 10 {
+			return
+		}
+		seen[x] = true
+		switch y := x.(type) {
+		case *ssa.BinOp:
+			if y.Op == token.SUB {
+				out = append(out, e19Diff{y, at})
+			}
+			walk(y.X, at, d+1, up)
+			walk(y.Y, at, d+1, up)
+		case *ssa.Convert:
+			walk(y.X, at, d+1, up)
+		case *ssa.ChangeType:
+			walk(y.X, at, d+1, up)
+		case *ssa.Phi:
+			for _, ed := range y.Edges {
+				walk(ed, at, d+1, up)
+			}
+		case *ssa.Parameter:
+			_, idx := e19ParamIndex(y)
+			edges := c.P.RealCallers(y.Parent())
+			if idx < 0 || up >= 2 || len(edges) > 8 || y.Parent().Parent() != nil {
+				return
+			}
+			for _, ed := range edges {
+				site, ok := ed.Site.(*ssa.Call)
+				if !ok || site.Common().StaticCallee() != y.Parent() || idx >= len(site.Common().Args) {
+					continue
+				}
+				walk(site.Common().Args[idx], site, d+1, up+1)
+			}
+		case *ssa.Call:
+			if _, isB := y.Common().Value.(*ssa.Builtin); isB {
+				return
+			}
+			if f := y.Common().StaticCallee(); f != nil && f.Pkg != nil && f.Pkg.Pkg.Path() == "math" {
+				for _, a := range y.Common().Args {
+					walk(a, at, d+1, up)
+				}
+			}
+		}
+	}
+	walk(v, at, 0, 0)
+	return out
+}
+
+// differences of sizes whose order is a value-level invariant (frozen, re-checked shape)
+type e19DiffException struct {
+	fn, reason string
+	side       func(c *Ctx, diffs []ssa.Value) (bool, string)
+}
+
+var err7DiffExceptions = []e19DiffException{
+	{"lib/query.Delete", "deletedIndices[k] is a set of distinct record indices of the view v, so it has at most v.RecordLen() members",
+		func(c *Ctx, diffs []ssa.Value) (bool, string) {
+			if len(diffs) != 1 {
+				return false, "more than one subtraction"
+			}
+			d := diffs[0].(*ssa.BinOp)
+			xc, ok := d.X.(*ssa.Call)
+			if !ok || xc.Common().StaticCallee() == nil || xc.Common().StaticCallee().Name() != "RecordLen" {
+				return false, "the minuend is not RecordLen()"
+			}
+			yc, ok := d.Y.(*ssa.Call)
+			if !ok {
+				return false, "the subtrahend is not len(map)"
+			}
+			if b, ok := yc.Common().Value.(*ssa.Builtin); !ok || b.Name() != "len" {
+				return false, "the subtrahend is not len(map)"
+			}
+			if _, isMap := yc.Common().Args[0].Type().Underlying().(*types.Map); !isMap {
+				return false, "the subtrahend is not the size of a set"
+			}
+			return true, "RecordLen() minus the size of a map keyed by record index"
+		}},
+	{"lib/query.writeFieldList", "idxstr is the decimal text of i+1 ≤ l and digits is the length of the decimal text of l",
+		func(c *Ctx, diffs []ssa.Value) (bool, string) {
+			if len(diffs) != 1 {
+				return false, "more than one subtraction"
+			}
+			d := diffs[0].(*ssa.BinOp)
+			for _, side := range []ssa.Value{d.X, d.Y} {
+				lc, ok := side.(*ssa.Call)
+				if !ok {
+					return false, "operand is not len(strconv.Itoa(...))"
+				}
+				if b, ok := lc.Common().Value.(*ssa.Builtin); !ok || b.Name() != "len" {
+					return false, "operand is not len(...)"
+				}
+				ic, ok := lc.Common().Args[0].(*ssa.Call)
+				if !ok || c.P.CalleeName(ic) != "strconv.Itoa" {
+					return false, "operand is not len(strconv.Itoa(...))"
+				}
+			}
+			return true, "both operands are lengths of strconv.Itoa results"
+		}},
+}
+
+// e19RecordRangeDiff: end - start of one (*GoroutineTaskManager).RecordRange call:
+// the ranges tile [0, recordLen) with start ≤ end (decided by R-PAR-5).
+func e19RecordRangeDiff(c *Ctx, d *ssa.BinOp) bool {
+	ex, ok1 := d.X.(*ssa.Extract)
+	ey, ok2 := d.Y.(*ssa.Extract)
+	if !ok1 || !ok2 || ex.Tuple != ey.Tuple || ex.Index != 1 || ey.Index != 0 {
+		return false
+	}
+	call, ok := ex.Tuple.(*ssa.Call)
+	return ok && call.Common().StaticCallee() != nil && c.P.Name(call.Common().StaticCallee()) == "lib/query.(*GoroutineTaskManager).RecordRange"
+}
+
 func ruleErr7(c *Ctx, scope func(*ssa.Function) bool) {
 	e := e19NewBounds(c)
 	seq := e19SeqKey{}
@@ -315,7 +441,57 @@ func ruleErr7(c *Ctx, scope func(*ssa.Function) bool) {
 		c.Sites++
 		c.Touch(fn)
 		if lo == 0 && e.SizeDerived(v, at) {
-			c.Ok(seq.key(c, e19KeyFn(c, fn), what+" guarded"), c.Pos(at), "built from lengths, counters, library-reported sizes and constants only: carries no input-chosen magnitude")
+			// sums and products of sizes are non-negative; a DIFFERENCE of sizes is not:
+			// its sign is a logic invariant that has to be shown (interval, or a
+			// dominating comparison of the two operands) — `len(fields) - len(keys)`
+			diffs := e19Differences(c, v, at)
+			if len(diffs) == 0 {
+				c.Ok(seq.key(c, e19KeyFn(c, fn), what+" guarded"), c.Pos(at), "built from lengths, counters, library-reported sizes and constants only (no subtraction): carries no input-chosen magnitude and cannot be negative")
+				return
+			}
+			key := seq.key(c, e19KeyFn(c, fn), what+" guarded")
+			if a := e.Eval(v, at, core.KInt); a.Bot || a.Lo >= 0 {
+				c.Ok(key, c.Pos(at), "built from sizes; shown ≥ 0: "+e19FmtAV(a))
+				return
+			}
+			pr := &e19Prover{c: c, e: e, busy: map[e19BusyKey]bool{}}
+			var open []e19Diff
+			for _, df := range diffs {
+				if a := e.Eval(df.op, df.at, core.KInt); a.Bot || a.Lo >= 0 {
+					continue
+				}
+				if pr.le(df.op.Y, e19Term{val: df.op.X}, false, core.FactsAt(df.at.Block()), df.at, 0) {
+					continue
+				}
+				if e19RecordRangeDiff(c, df.op) {
+					continue
+				}
+				open = append(open, df)
+			}
+			if len(open) == 0 {
+				c.Ok(key, c.Pos(at), "built from sizes; every subtraction in it has its subtrahend shown ≤ its minuend (interval, dominating comparison, io.Reader contract, or RecordRange's start ≤ end)")
+				return
+			}
+			for _, ex := range err7DiffExceptions {
+				if e19OnlyCalledFrom(c, fn, ex.fn) {
+					var ops []ssa.Value
+					for _, df := range open {
+						ops = append(ops, df.op)
+					}
+					if ok, why := ex.side(c, ops); ok {
+						c.Ok(key, c.Pos(at), "frozen exception: "+ex.reason+" — side condition checked: "+why)
+					} else {
+						c.Bad(key, c.Pos(at), "frozen exception ("+ex.reason+") no longer holds: "+why)
+					}
+					return
+				}
+			}
+			d := open[0].op
+			where := ""
+			if open[0].at != at {
+				where = " (computed at " + c.Pos(open[0].at) + ")"
+			}
+			c.Bad(key, c.Pos(at), fmt.Sprintf("the argument is a difference of sizes (%s - %s)%s whose sign is not shown: nothing that dominates it orders the two operands (duplicates in a user-written list make the subtrahend larger) — %s", e19ExprLabel(d.X), e19ExprLabel(d.Y), where, panicText))
 			return
 		}
 		leaf := ""
@@ -499,7 +675,7 @@ func e19CallersIncrementField(c *Ctx, fn *ssa.Function, n ssa.Value, k int64) (b
 	if !ok || len(fn.Params) == 0 || fa.X != fn.Params[0] {
 		return false, "index base is not a field of the receiver"
 	}
-	edges := c.P.Callers(fn)
+	edges := c.P.RealCallers(fn)
 	if len(edges) == 0 {
 		return false, "no caller"
 	}
